@@ -401,6 +401,9 @@ def _assignlabels_flavour(sh, gi, tier, flavour):
     comp = (np.dot(u0, O.rotation_from_axis_angle((1, 2, 3), 0.2).T), t0 + np.array([200.0, -150.0, 80.0]))
     grains_all = truth + [comp]
     peaks = c09.simulate(tr, pars, truth)
+    if flavour == "displaced":
+        # ... and the peaks of a grain that is NOT in the list handed to the refiner: they belong to nobody
+        peaks = np.concatenate([peaks, c09.simulate(tr, pars, [c09.true_grains(4, seed_of())[3]])])
     nthreads = (1,)
     if flavour == "frame-pairs":
         # peaks as they come from 2-D peak tables: several spots share a frame, so consecutive rows carry exactly the same omega. Every
@@ -423,14 +426,16 @@ def _assignlabels_flavour(sh, gi, tier, flavour):
         om = np.array([float("%.4f" % v) for v in peaks[:, 2]])
         det = {k: pars[k] for k in ("distance", "y_center", "z_center", "y_size", "z_size", "tilt_x", "tilt_y", "tilt_z", "o11", "o12", "o21", "o22")}
         xyz = tr.compute_xyz_lab(np.array([sc, fc]), **det)
-        errs = []
-        for ubi, t in grains_all:
-            tth, eta = tr.compute_tth_eta_from_xyz(xyz, om * pars["omegasign"], t_x=t[0], t_y=t[1], t_z=t[2], wedge=pars["wedge"], chi=pars["chi"])
-            g = tr.compute_g_vectors(tth, eta, om * pars["omegasign"], pars["wavelength"], wedge=pars["wedge"], chi=pars["chi"])
-            h = np.dot(ubi, g)
-            d = h - np.round(h)
-            errs.append((d * d).sum(axis=0))
-        errs = np.array(errs)
+        def errors_of(glist):
+            out = []
+            for ubi, t in glist:
+                tth, eta = tr.compute_tth_eta_from_xyz(xyz, om * pars["omegasign"], t_x=t[0], t_y=t[1], t_z=t[2], wedge=pars["wedge"], chi=pars["chi"])
+                g = tr.compute_g_vectors(tth, eta, om * pars["omegasign"], pars["wavelength"], wedge=pars["wedge"], chi=pars["chi"])
+                h = np.dot(ubi, g)
+                d = h - np.round(h)
+                out.append((d * d).sum(axis=0))
+            return np.array(out)
+        errs = errors_of(grains_all)
         ref_by_order = {}
         for tol, order, nt in [(tol, order, nt) for tol in ((0.02, 0.05) if flavour == "displaced" else (0.03,))
                                for order in (itertools.permutations(range(4)) if flavour != "frame-pairs" else [(0, 1, 2, 3), (3, 1, 0, 2)])
@@ -439,7 +444,7 @@ def _assignlabels_flavour(sh, gi, tier, flavour):
                 cI_.cimaged11_omp_set_num_threads(nt)
                 with contextlib.redirect_stdout(io.StringIO()):
                     o = refinegrains.refinegrains(tolerance=tol, OmFloat=False)
-                    o.parameterobj = P.parameters(**pars)
+                    o.parameterobj.set_parameters(dict(pars))            # the object's own parameter set (it carries the step sizes)
                     o.loadfiltered(os.path.join(wd, "p.flt"))
                     # grain NAMES are not their positions in the list (files with a sub-set of grains, re-ordered lists): 0,1,2,3 for the
                     # first tolerance, 7,2,11,5 for the others
@@ -499,6 +504,32 @@ def _assignlabels_flavour(sh, gi, tier, flavour):
                     for pos in range(4):
                         if o.grains[(names[pos], os.path.join(wd, "p.flt"))].npks != int((labels == names[pos]).sum()):
                             sh.violation("assignlabels:grain-peak-count-not-histogram", dict(case, grain=pos), {}); break
+                if ok and flavour == "displaced" and tuple(order) in ((0, 1, 2, 3), (2, 0, 3, 1)) and nt == 1:
+                    # history: a position refinement in between (it works with its own wide tolerance internally), then the assignment again -
+                    # with the tolerance the object was given, for the grains as they are now
+                    fkey = os.path.join(wd, "p.flt")
+                    with contextlib.redirect_stdout(io.StringIO()):
+                        o.refinepositions(quiet=True, maxiters=3)
+                        cur = [(np.array(o.grains[(names[pos], fkey)].ubi, float).copy(), np.array(o.grains[(names[pos], fkey)].translation, float).copy())
+                               for pos in range(4)]
+                        o.assignlabels(quiet=True)
+                    l3 = np.asarray(o.scandata[fkey].labels).astype(int)
+                    e3 = errors_of(cur)
+                    elig3 = e3 < tol2
+                    border3 = (np.abs(e3 - tol2) < 1e-7).any(axis=0)
+                    none3 = ~elig3.any(axis=0)
+                    em3 = np.where(elig3, e3, np.inf)
+                    lab_err3 = np.full(len(l3), np.nan)
+                    for pos in range(4):
+                        m3 = l3 == names[pos]
+                        lab_err3[m3] = em3[pos, m3]
+                    hcase = dict(case, history=["assignlabels", "refinepositions", "assignlabels"])
+                    if (none3 & ~border3 & (l3 != -1)).any():
+                        sh.violation("assignlabels[after refinepositions]:unindexed-peak-labelled", hcase, {"n": int((none3 & ~border3 & (l3 != -1)).sum()), "tolerance_given": tol,
+                                                                                                                   "tolerance_attribute_now": float(o.tolerance)})
+                    elif (~none3 & ~border3 & ~(np.abs(lab_err3 - em3.min(axis=0)) <= 1e-7)).any():
+                        sh.violation("assignlabels[after refinepositions]:not-best-grain", hcase, {})
+                    sh.evaluations += 1
                 sh.borderline += int(border.sum())
                 sh.evaluations += 1
                 if int(elig.sum(axis=0).max()) >= 2:
